@@ -469,6 +469,38 @@ class Fn:
                 uses[t].append((l, "ref", None))
         self._uses = uses
 
+    def reads(self, l):
+        """locations where local l is read (operands, call args, switch/assert/yield operands,
+        base of a projected destination); Drop and StorageDead do not count"""
+        if getattr(self, "_reads", None) is None:
+            rd = defaultdict(list)
+            for loc, s in self.iter_locs():
+                k = s[0]
+                ops = []
+                if k == "a":
+                    ops = rv_operands(s[2])
+                    if len(s[1]) > 1:
+                        ops = ops + [["c", s[1]]]
+                elif k == "call":
+                    ops = list(s[1]["a"])
+                    if "fop" in s[1]:
+                        ops.append(s[1]["fop"])
+                    if len(s[1]["d"]) > 1:
+                        ops.append(["c", s[1]["d"]])
+                elif k == "sw":
+                    ops = [s[1]]
+                elif k == "assert":
+                    ops = [s[1]] + list(s[4])
+                elif k == "yield":
+                    ops = [s[1]]
+                for o in ops:
+                    p = op_place(o)
+                    if p:
+                        for x in place_locals(p):
+                            rd[x].append((loc, p))
+            self._reads = rd
+        return self._reads.get(l, [])
+
     # ---------- convenience
     def const_switch_edges(self):
         """edges of SwitchInt whose discriminant is a constant assigned in the same block
